@@ -11,8 +11,13 @@ EXTENDS HistOpsSem
 (***************************************************************************)
 (* Branches, variables, names.                                             *)
 (***************************************************************************)
-\* branch kinds: [p |-> "positron" | "neutron", c |-> "x" | "y" | "xy"]
-Br(p, c) == [p |-> p, c |-> c]
+\* branch kinds: [p |-> "positron" | "neutron", c |-> "x" | "y" | "xy", a |-> "hist" | "mean"]
+\* a = "hist": (variables, Histogram) - a plot;  a = "mean": (Compose(particle, coord), Mean()) - a number that no
+\* element of the output chain selects: it must come out at the end unchanged, named but not written
+Br(p, c) == [p |-> p, c |-> c, a |-> "hist"]
+BrMean(p, c) == [p |-> p, c |-> c, a |-> "mean"]
+IsHist(b) == b.a = "hist"
+Plots(brl) == {i \in 1..Len(brl) : IsHist(brl[i])}
 Dim(b) == IF b.c = "xy" THEN 2 ELSE 1
 EdgesOfP(b, ed) == IF Dim(b) = 2 THEN <<ed[1], ed[2]>> ELSE <<ed[1]>>
 Particle(b, ev) == IF b.p = "positron" THEN ev[1] ELSE ev[2]
@@ -28,11 +33,14 @@ VarCtx(b) == [name |-> b.c, particle |-> b.p, coordinate |-> IF Dim(b) = 1 THEN 
               compose |-> IF Dim(b) = 1 THEN <<"particle", "coordinate">> ELSE <<"particle">>, dim |-> Dim(b),
               source |-> "data"]      \* what the reader said about the event survives in every branch, nothing else is added
 
-EmptyP(b, ed) == [bins |-> InitBins(EdgesOfP(b, ed), 1, 0), oor |-> 0]
+\* the state of a branch's accumulator: a histogram [bins, oor], or for Mean the pair [bins |-> <<sum, count>>, oor |-> 0]
+EmptyP(b, ed) == IF IsHist(b) THEN [bins |-> InitBins(EdgesOfP(b, ed), 1, 0), oor |-> 0] ELSE [bins |-> <<0, 0>>, oor |-> 0]
 RECURSIVE FillAllP(_, _, _, _)
 FillAllP(b, st, evs, ed) == IF evs = <<>> THEN st
-                            ELSE LET r == FillOp(st.bins, st.oor, EdgesOfP(b, ed), Proj(b, Head(evs)), 1)
+                            ELSE IF IsHist(b)
+                            THEN LET r == FillOp(st.bins, st.oor, EdgesOfP(b, ed), Proj(b, Head(evs)), 1)
                                  IN FillAllP(b, [bins |-> r.bins, oor |-> r.oor], Tail(evs), ed)
+                            ELSE FillAllP(b, [bins |-> <<st.bins[1] + Proj(b, Head(evs))[1], st.bins[2] + 1>>, oor |-> 0], Tail(evs), ed)
 \* declarative: every cell holds the number of events whose projection lies in it
 ExpectedP(b, evs, ed) ==
   LET E == EdgesOfP(b, ed)
@@ -64,22 +72,25 @@ BuildBins(b, evs, ed, d, prefix) ==
   LET E == EdgesOfP(b, ed) IN
   [j \in 1..NB(E[d]) |-> IF d = Len(E) THEN ExpectedP(b, evs, ed)[Append(prefix, j - 1)]
                          ELSE BuildBins(b, evs, ed, d + 1, Append(prefix, j - 1))]
-HistRef(b, evs, ed) == [bins |-> BuildBins(b, evs, ed, 1, <<>>), oor |-> OutsideP(b, evs, ed)]
+HistRef(b, evs, ed) == IF IsHist(b) THEN [bins |-> BuildBins(b, evs, ed, 1, <<>>), oor |-> OutsideP(b, evs, ed)]
+                       ELSE [bins |-> <<SumSeq([k \in 1..Len(evs) |-> Proj(b, evs[k])[1]]), Len(evs)>>, oor |-> 0]
 \* files after the run / written / launched, given the files before (F0), for pairwise differently named branches
 RunFiles(F0, brl, evs, t, ed) ==
-  LET keys == {Key(brl[i], e) : i \in 1..Len(brl), e \in {"csv", "tex", "pdf", "png"}}
-      Of(k) == LET b == brl[CHOOSE i \in 1..Len(brl) : Name(brl[i]) = k[1]]
+  LET keys == {Key(brl[i], e) : i \in Plots(brl), e \in {"csv", "tex", "pdf", "png"}}
+      Of(k) == LET b == brl[CHOOSE i \in Plots(brl) : Name(brl[i]) = k[1]]
                    csv == CsvOfP(b, HistRef(b, evs, ed), ed)
                    tex == TexOf(b, t)
                IN CASE k[2] = "csv" -> File(csv) [] k[2] = "tex" -> File(tex)
                     [] OTHER -> File([tex |-> tex, csv |-> csv])
   IN [k \in keys \cup DOMAIN F0 |-> IF k \in keys THEN Of(k) ELSE F0[k]]
-RunWrote(F0, F1, brl) == {k \in {Key(brl[i], e) : i \in 1..Len(brl), e \in {"csv", "tex"}} : Get2(F0, k) # F1[k]}
+RunWrote(F0, F1, brl) == {k \in {Key(brl[i], e) : i \in Plots(brl), e \in {"csv", "tex"}} : Get2(F0, k) # F1[k]}
 RunLaunched(F0, F1, brl) ==
   LET W == RunWrote(F0, F1, brl)
       Pdf(b) == ~Has(F0, Key(b, "pdf")) \/ Key(b, "csv") \in W \/ Key(b, "tex") \in W
-  IN {Key(brl[i], "pdf") : i \in {j \in 1..Len(brl) : Pdf(brl[j])}}
-     \cup {Key(brl[i], "png") : i \in {j \in 1..Len(brl) : Pdf(brl[j]) \/ ~Has(F0, Key(brl[j], "png"))}}
+  IN {Key(brl[i], "pdf") : i \in {j \in Plots(brl) : Pdf(brl[j])}}
+     \cup {Key(brl[i], "png") : i \in {j \in Plots(brl) : Pdf(brl[j]) \/ ~Has(F0, Key(brl[j], "png"))}}
 RunOut(brl, evs, ed) == [i \in 1..Len(brl) |-> LET st == HistRef(brl[i], evs, ed) IN
-                           [name |-> Name(brl[i]), var |-> VarCtx(brl[i]), dim |-> Dim(brl[i]), bins |-> st.bins, oor |-> st.oor]]
+                           [name |-> Name(brl[i]), var |-> VarCtx(brl[i]), dim |-> IF IsHist(brl[i]) THEN Dim(brl[i]) ELSE 0,
+                            \* a mean is reported as the normalised rational sum / count
+                            bins |-> IF IsHist(brl[i]) THEN st.bins ELSE R(st.bins[1], st.bins[2]), oor |-> st.oor]]
 =============================================================================
